@@ -283,6 +283,6 @@ def strat_directed(tier):
 
 
 PARTS = [
-    Part("provenance", run, strategy, {"quick": 2000, "thorough": 60000}, rule=RULE),
-    Part("fork-join", run, strat_directed, {"quick": 1200, "thorough": 30000}, rule="directed fork-join definitions whose branches publish the same variables independently"),
+    Part("provenance", run, strategy, {"quick": 2000, "thorough": 20000}, rule=RULE),
+    Part("fork-join", run, strat_directed, {"quick": 1200, "thorough": 12000}, rule="directed fork-join definitions whose branches publish the same variables independently"),
 ]
